@@ -153,7 +153,7 @@ where
 /-! ### serializer -/
 
 /-- `needs_quote` -/
-def needsQuote (s : List Ch) : Bool := s.contains 32 && !(s.contains 34 || s.contains 39)
+def needsQuote (s : List Ch) : Bool := s.isEmpty || (s.contains 32 && !(s.contains 34 || s.contains 39))
 
 /-- a value to be written: floats carry the text `str(x)` printed for them (scalar context) -/
 inductive WVal
